@@ -447,13 +447,19 @@ fn gen_trace_info(ch: &mut Chooser) -> TraceInfo {
 struct ProofJob<'a> {
     ch: &'a mut Chooser,
     ctx: &'a mut Ctx,
+    /// an algebraic hasher: proofs are an order of magnitude slower, keep them small
+    rescue: bool,
 }
 
 impl<'a> Job for ProofJob<'a> {
     type Out = ();
     fn run<B: SimField, H: ElementHasher<BaseField = B> + Send + Sync + 'static>(self) {
         let (ch, ctx) = (self.ch, self.ctx);
-        let lim = GenLimits { max_log_len: 6, max_width: 255, max_grinding: 1, allow_aux: true };
+        let lim = if self.rescue {
+            GenLimits { max_log_len: 5, max_width: 12, max_grinding: 0, allow_aux: true }
+        } else {
+            GenLimits { max_log_len: 6, max_width: 255, max_grinding: 1, allow_aux: true }
+        };
         let mut case = gen_case::<B>(ch, &lim);
         // push the boundary members of the proof components
         match ch.weighted("proof.extreme", &[3, 2, 2, 2]) {
@@ -509,8 +515,9 @@ fn scenario(_info: &RunInfo, ch: &mut Chooser, ctx: &mut Ctx) {
         0 => primitives(ch, ctx),
         1 => algebra(ch, ctx),
         _ => {
-            let cfg = gen_cfg(ch, false);
-            dispatch(cfg, ProofJob { ch, ctx });
+            // every (field, hasher) pair: digest widths of 24, 31 and 32 bytes on the wire
+            let cfg = gen_cfg(ch, true);
+            dispatch(cfg, ProofJob { ch, ctx, rescue: is_rescue(cfg) });
         },
     }
 }
